@@ -114,7 +114,10 @@ class Concat(Space):
         return (self.s[k].name, self.s[k][i - self.offs[k]])
 
     def family_sizes(self):
-        return {s.name: len(s) for s in self.s}
+        out = {}
+        for s in self.s:
+            out[s.name] = out.get(s.name, 0) + len(s)
+        return out
 
 
 class Mapped(Space):
